@@ -12,7 +12,8 @@ import HeimdallModel.Spec.ConfigYaml
 * op `leafload`: the loader model followed by the decoding model, what arrives at one typed leaf;
 * op `dialect`: for every text the reading of the model (`readText`; `"beyond"` outside the modelled fragment), what a
   file saying the text at a leaf of the given type gives where the schema wants the given JSON type (`"rejected"` or the
-  decoded leaf) and what a variable carrying the text gives;
+  decoded leaf) and what a variable carrying the text gives; with `refs` (variables a FILE may refer to) the text is first resolved
+  (`substitute`) and `substituted` is what the file then says;
 * op `names`: `res` = the path each variable name addresses and the name the documented rule gives that path back.
 
 A case may carry `prefix` (the text handed to `WithEnvPrefix`); its `env` then lists the variables of the process under
@@ -161,8 +162,21 @@ def runDialect (c : Json) : Driver.E Json := do
     | "integer" => pure JsonType.integer
     | w => throw s!"unknown JSON type {w}")
   let texts ← Driver.arr c "texts"
+  -- `refs`: the variables the texts may refer to (`${NAME}`); the model then reads what the file says after the
+  -- references are resolved (`Config.substitute`) and reports that text (`substituted`)
+  let refs : Option Vars := match c.getObjVal? "refs" with
+    | .ok (.obj kvs) => some (kvs.foldl (fun acc k v => match v with | .str x => (k.toList, x.toList) :: acc | _ => acc) [])
+    | _ => none
   let out ← texts.mapM fun j => do
-    let s ← j.getStr?
+    let written ← j.getStr?
+    let resolved : Option String := match refs with
+      | some vs => (substitute vs written.toList).map String.ofList
+      | none => some written
+    match resolved with
+    | none => pure (Json.mkObj [("text", Json.str written), ("modelled", Json.bool false), ("reading", Json.str "beyond"),
+        ("file", Json.str "beyond"), ("env", Json.str "beyond"), ("string", Json.bool false),
+        ("validator", Json.str "beyond"), ("substituted", Json.null)])
+    | some s =>
     let reading := match readText s.toList with
       | some y => scalarToJson y
       | none => Json.str "beyond"
@@ -175,7 +189,7 @@ def runDialect (c : Json) : Driver.E Json := do
     let isStr := match readText s.toList with
       | some (.str _) => true
       | _ => false
-    pure (Json.mkObj [("text", Json.str s), ("modelled", Json.bool (readText s.toList).isSome), ("reading", reading),
+    pure (Json.mkObj [("text", Json.str written), ("substituted", Json.str s), ("modelled", Json.bool (readText s.toList).isSome), ("reading", reading),
       ("file", file), ("env", env), ("string", Json.bool isStr),
       ("validator", match (validatorReads s.toList) with
         | some y => Json.str (if schemaAccepts .string y then "string" else if schemaAccepts .boolean y then "boolean"
